@@ -1,1 +1,329 @@
-/- C12: property theorems (not built yet). -/
+/-
+  C12 — validate_calcs reports exactly the stored results that disagree.
+
+  Statement (properties.jsonl): "On a workbook file whose stored formula results are what its formulas produce,
+  validate_calcs returns an empty report. If the stored result of one formula cell reachable from the checked outputs
+  is altered by more than the tolerance, the report names that cell as a mismatch with its stored and recomputed
+  values, and every other reported cell depends on it; cells it cannot evaluate are reported under exceptions or
+  not-implemented rather than silently skipped."
+
+  The theorems are about `validate` of Model/Validate.lean, for EVERY DAG workbook (`WF`), every value type, every
+  formula semantics that reads only its declared precedents (`Local`/`LocalG`) and may raise (`Except Fail`), every
+  list of checked outputs, `verify_tree` on or off, every comparison `close` that is reflexive.
+  `f` is the total Excel semantics ("what the formulas produce"); `Agree`: whenever pycel's compiled formula `g`
+  returns, it returns `f`.  `D C f i` = `Engine.denote` = the from-scratch value of node `i`.
+
+  Exact skip rules of the code, stated as explicit exclusions:
+    * no stored result (`stored c = none`: no `<v>` in the file, or a stored empty string, which openpyxl reads as
+      None): the cell is recomputed but there is nothing to compare -> C12_complete needs `stored c = some v'`;
+    * "No Orig data?": a value equal to the text of the cell's own formula (`noData`): the cell is neither verified nor
+      are its precedents pushed -> `Walk` stops at cells logged in `Report.noData`, C12_complete needs
+      `noData c v' = false` (known finding stored.formula-text);
+    * value cells and range nodes have nothing to compare; they are walked through;
+    * unbounded ranges (`A:A` reference cells) are not part of the model (not formula cells of the workbook).
+  Classification of "a stored logical altered into the equal number (TRUE -> 1)": the property counts a change of
+  type as an alteration; `close_enough` cannot see it (`closeVal_logical_number`): known finding logical.as-number
+  (repair breaks tests/lib/test_logical.py::test_logical_ws).  In the theorems it is covered honestly: C12_complete
+  demands `¬ close (D c) v'`, which is false for that alteration.
+-/
+import Pycel.Lemmas.ValidateLoop
+import Pycel.Model.ValidateInst
+import Pycel.Lemmas.EngineInst
+namespace Pycel.Validate
+open Pycel Pycel.Engine
+
+variable {α : Type}
+
+/-- "stored formula results are what its formulas produce" (where the file has a stored result) -/
+def Consistent (C : Cfg α) (f : Nat → (Nat → α) → α) : Prop :=
+  ∀ j v, C.wb.kind j = .formula → C.stored j = some v → v = D C f j
+
+/-- consistent except at the altered cell `c` -/
+def ConsistentBut (C : Cfg α) (f : Nat → (Nat → α) → α) (c : Nat) : Prop :=
+  ∀ j v, j ≠ c → C.wb.kind j = .formula → C.stored j = some v → v = D C f j
+
+/-- pycel can evaluate every formula -/
+def Total (C : Cfg α) : Prop := ∀ i e, ∃ v, C.g i e = .ok v
+
+/-- the walk of the work-list: the outputs, and (with verify_tree) the precedents of every walked node that was not
+    dismissed by the "No Orig data?" rule -/
+inductive Walk (C : Cfg α) (nd : List Nat) (outs : List Nat) : Nat → Prop
+  | out {o : Nat} : o ∈ outs → Walk C nd outs o
+  | dep {x j : Nat} : C.tree = true → Walk C nd outs x → x ∉ nd → j ∈ C.wb.deps x → Walk C nd outs j
+
+section
+variable {C : Cfg α} {f : Nat → (Nat → α) → α}
+
+theorem hyp_of_consistent (hwf : WF C.wb) (hl : Local C.wb f) (hlg : LocalG C) (hag : Agree C f)
+    (hc : Consistent C f) (hrefl : ∀ v, C.close v v = true) : Hyp C f (fun _ => False) :=
+  ⟨hwf, hl, hlg, hag, fun _ _ _ h => h, fun j v hk hv => .inl (hc j v hk hv), fun _ _ v => hrefl v⟩
+
+theorem hyp_of_but (hwf : WF C.wb) (hl : Local C.wb f) (hlg : LocalG C) (hag : Agree C f) {c : Nat}
+    (hc : ConsistentBut C f c) (hrefl : ∀ v, C.close v v = true) : Hyp C f (fun m => Reach C.wb m c) :=
+  ⟨hwf, hl, hlg, hag, fun _ _ hj hb => .step hj hb,
+   fun j v hk hv => by
+     by_cases hjc : j = c
+     · exact .inr (hjc ▸ .refl j)
+     · exact .inl (hc j v hjc hk hv),
+   fun _ _ v => hrefl v⟩
+
+/-- "the loop terminates": after `fuelFor` iterations the work-list is empty, for every DAG workbook. -/
+theorem C12_terminates (hwf : WF C.wb) (outs : List Nat) : (validate C outs).todo = [] :=
+  validate_done hwf outs
+
+/-- "On a workbook file whose stored formula results are what its formulas produce, validate_calcs returns an empty
+    report" — the mismatch class is empty even when some cells cannot be evaluated. -/
+theorem C12_sound_mismatch (hwf : WF C.wb) (hl : Local C.wb f) (hlg : LocalG C) (hag : Agree C f)
+    (hc : Consistent C f) (hrefl : ∀ v, C.close v v = true) (outs : List Nat) :
+    (validate C outs).rep.mismatch = [] := by
+  have hi := (BInv.init (C := C) (f := f) (Bad := fun _ => False) outs).iter
+    (hyp_of_consistent hwf hl hlg hag hc hrefl) (fuelFor C outs)
+  cases hm : (validate C outs).rep.mismatch with
+  | nil => rfl
+  | cons e es =>
+    exact (hi.blame e.1 e.2.1 e.2.2 (by unfold validate at hm; rw [hm]; exact List.mem_cons_self ..)).elim
+
+/-- "cells it cannot evaluate are reported under exceptions or not-implemented": nothing is reported there without a
+    formula that really raises that class of exception (no hypothesis on the stored results at all). -/
+theorem C12_failed_justified (hwf : WF C.wb) (hl : Local C.wb f) (hlg : LocalG C) (hag : Agree C f)
+    (outs : List Nat) (x : Nat) (e : Fail) (hx : (x, e) ∈ (validate C outs).rep.failed) :
+    ∃ j env, C.g j env = .error e := by
+  have hh : Hyp C f (fun _ => True) :=
+    ⟨hwf, hl, hlg, hag, fun _ _ _ _ => trivial, fun _ _ _ _ => .inr trivial, fun _ h => (h trivial).elim⟩
+  exact ((BInv.init (C := C) (f := f) (Bad := fun _ => True) outs).iter hh (fuelFor C outs)).why x e hx
+
+/-- "On a workbook file whose stored formula results are what its formulas produce, validate_calcs returns an empty
+    report" (a workbook pycel can evaluate: `Total`). -/
+theorem C12_sound (hwf : WF C.wb) (hl : Local C.wb f) (hlg : LocalG C) (hag : Agree C f)
+    (hc : Consistent C f) (ht : Total C) (hrefl : ∀ v, C.close v v = true) (outs : List Nat) :
+    (validate C outs).rep.mismatch = [] ∧ (validate C outs).rep.failed = [] := by
+  refine ⟨C12_sound_mismatch hwf hl hlg hag hc hrefl outs, ?_⟩
+  cases hm : (validate C outs).rep.failed with
+  | nil => rfl
+  | cons p ps =>
+    obtain ⟨j, env, hj⟩ := C12_failed_justified hwf hl hlg hag outs p.1 p.2 (by rw [hm]; exact List.mem_cons_self ..)
+    obtain ⟨v, hv⟩ := ht j env
+    rw [hv] at hj; cases hj
+
+/-- the same with the consistency notion of the engine property C01 (`Engine.StoredConsistent`). -/
+theorem C12_sound_engine (hwf : WF C.wb) (hl : Local C.wb f) (hlg : LocalG C) (hag : Agree C f)
+    (hc : StoredConsistent C.wb f C.inp C.stored) (hn : ∀ j, C.wb.n ≤ j → C.stored j = none)
+    (ht : Total C) (hrefl : ∀ v, C.close v v = true) (outs : List Nat) :
+    (validate C outs).rep.isEmpty = true := by
+  have hcons : Consistent C f := by
+    intro j v hk hv
+    by_cases hj : j < C.wb.n
+    · rw [hc j hj hk] at hv; cases hv; rfl
+    · rw [hn j (by omega)] at hv; cases hv
+  have := C12_sound hwf hl hlg hag hcons ht hrefl outs
+  simp [Report.isEmpty, this.1, this.2]
+
+/-- "every other reported cell depends on it": every cell in the mismatch class reaches `c` through precedents
+    (`Reach x c`; `x = c` itself included). -/
+theorem C12_blame (hwf : WF C.wb) (hl : Local C.wb f) (hlg : LocalG C) (hag : Agree C f) (c : Nat)
+    (hc : ConsistentBut C f c) (hrefl : ∀ v, C.close v v = true) (outs : List Nat)
+    (x : Nat) (o r : α) (hx : (x, o, r) ∈ (validate C outs).rep.mismatch) : Reach C.wb x c :=
+  ((BInv.init (C := C) (f := f) (Bad := fun m => Reach C.wb m c) outs).iter
+    (hyp_of_but hwf hl hlg hag hc hrefl) (fuelFor C outs)).blame x o r hx
+
+/-- on a workbook pycel can evaluate, the mismatch class is the whole report: EVERY reported cell depends on `c`. -/
+theorem C12_blame_total (hwf : WF C.wb) (hl : Local C.wb f) (hlg : LocalG C) (hag : Agree C f) (c : Nat)
+    (hc : ConsistentBut C f c) (ht : Total C) (hrefl : ∀ v, C.close v v = true) (outs : List Nat) :
+    (validate C outs).rep.failed = [] ∧
+    ∀ x o r, (x, o, r) ∈ (validate C outs).rep.mismatch → Reach C.wb x c := by
+  refine ⟨?_, fun x o r hx => C12_blame hwf hl hlg hag c hc hrefl outs x o r hx⟩
+  cases hm : (validate C outs).rep.failed with
+  | nil => rfl
+  | cons p ps =>
+    obtain ⟨j, env, hj⟩ := C12_failed_justified hwf hl hlg hag outs p.1 p.2 (by rw [hm]; exact List.mem_cons_self ..)
+    obtain ⟨v, hv⟩ := ht j env
+    rw [hv] at hj; cases hj
+
+/-- "cells it cannot evaluate are reported under exceptions or not-implemented rather than silently skipped":
+    every node on the walk from the outputs is, at the end, verified (recomputed and, when it had a stored result,
+    compared), or listed under exceptions / not-implemented, or dismissed by the "No Orig data?" rule (and then
+    logged in the ghost list `noData`, where the walk stops). -/
+theorem C12_no_skip (hwf : WF C.wb) (hl : Local C.wb f) (hlg : LocalG C) (hag : Agree C f)
+    (outs : List Nat) (x : Nat) (hx : Walk C (validate C outs).rep.noData outs x) :
+    Handled (validate C outs) x := by
+  have hh : Hyp C f (fun _ => True) :=
+    ⟨hwf, hl, hlg, hag, fun _ _ _ _ => trivial, fun _ _ _ _ => .inr trivial, fun _ h => (h trivial).elim⟩
+  have hcov : Cov C outs (validate C outs) :=
+    Cov.iter hh (fuelFor C outs) (BInv.init outs) (Cov.init outs)
+  have hdone := C12_terminates hwf outs
+  induction hx with
+  | out ho =>
+    rcases hcov.outs _ ho with h | h
+    · exact h
+    · rw [hdone] at h; cases h
+  | @dep x' j' htree _ hnd hj ih =>
+    have hp : Proc (validate C outs) x' := by
+      rcases ih with h | h | h
+      · exact .inl h
+      · exact .inr h
+      · exact absurd h hnd
+    rcases hcov.deps htree x' hp j' hj with h | h
+    · exact h
+    · rw [hdone] at h; cases h
+
+/-- when the "No Orig data?" rule did not fire: with verify_tree every node reachable from an output is verified or
+    listed under exceptions / not-implemented. -/
+theorem C12_no_skip_reach (hwf : WF C.wb) (hl : Local C.wb f) (hlg : LocalG C) (hag : Agree C f)
+    (outs : List Nat) (hnd : (validate C outs).rep.noData = []) (htree : C.tree = true)
+    (o x : Nat) (ho : o ∈ outs) (hx : Reach C.wb o x) :
+    x ∈ (validate C outs).verified ∨ ∃ e, (x, e) ∈ (validate C outs).rep.failed := by
+  have key : ∀ a m, Reach C.wb a m → Walk C (validate C outs).rep.noData outs a →
+      Walk C (validate C outs).rep.noData outs m := by
+    intro a m hr
+    induction hr with
+    | refl => exact fun h => h
+    | step hj _ ih => exact fun h => ih (.dep htree h (by rw [hnd]; simp) hj)
+  have hw := key o x hx (.out ho)
+  rcases C12_no_skip hwf hl hlg hag outs x hw with h | h | h
+  · exact .inl h
+  · exact .inr h
+  · rw [hnd] at h; cases h
+
+/-- "If the stored result of one formula cell reachable from the checked outputs is altered by more than the
+    tolerance, the report names that cell as a mismatch with its stored and recomputed values": `c` on the walk, its
+    stored result `v'` not close to the recomputed `D c`, every other stored result consistent, `c` evaluable
+    (every formula below it runs) — then the report's entry of `c` is exactly (`v'`, `D c`). -/
+theorem C12_complete (hwf : WF C.wb) (hl : Local C.wb f) (hlg : LocalG C) (hag : Agree C f) (c : Nat) (v' : α)
+    (hc : ConsistentBut C f c) (hrefl : ∀ v, C.close v v = true)
+    (hk : C.wb.kind c = .formula) (hs : C.stored c = some v') (hfar : ¬ C.close (D C f c) v' = true)
+    (hnd : C.noData c v' = false) (hev : ∀ m, Reach C.wb c m → Evaluable C f m)
+    (outs : List Nat) (hw : Walk C (validate C outs).rep.noData outs c) :
+    (validate C outs).rep.lookup c = some (v', D C f c) := by
+  have hh := hyp_of_but hwf hl hlg hag hc hrefl
+  have hch : CHyp C f c v' := ⟨hh, hk, hs, hfar, hnd, hev, hrefl _⟩
+  have hp : Phase C f c v' (validate C outs) :=
+    Phase.iter c v' hch (fuelFor C outs) (BInv.init outs) (Phase.init c v' outs)
+  rcases hp with ⟨hnh, _⟩ | ⟨_, _, hl⟩
+  · exact absurd (C12_no_skip hwf hl hlg hag outs c hw) hnh
+  · exact hl
+
+end
+
+/-! ### the comparison `close_enough` on Excel scalars -/
+
+theorem ratAbs_nonneg (q : Rat) : 0 ≤ ratAbs q := by
+  unfold ratAbs; split <;> grind
+
+theorem rel_nonneg : (0:Rat) ≤ rel := by unfold rel; decide +kernel
+
+theorem closeNum_refl (tol : Option Rat) (htol : ∀ t, tol = some t → 0 ≤ t) (q : Rat) : closeNum tol q q = true := by
+  unfold closeNum
+  have h0 : ratAbs (q - q) = 0 := by rw [Rat.sub_self]; unfold ratAbs; simp
+  cases tol with
+  | some t =>
+    simp only [h0, decide_eq_true_eq]
+    have ht := htol t rfl
+    have h1 : (0:Rat) ≤ 1 + rel := by unfold rel; decide +kernel
+    exact Rat.mul_nonneg h1 ht
+  | none =>
+    simp only [h0]
+    split
+    · simp only [decide_eq_true_eq]
+      apply Rat.mul_nonneg rel_nonneg
+      split <;> exact ratAbs_nonneg _
+    · simp only [decide_eq_true_eq]; decide +kernel
+
+/-- `close_enough` is reflexive for every tolerance setting: `None` and every tolerance `≥ 0`, INCLUDING 0 (this is
+    what C12_sound needs; with the pinned strict `<` it failed at 0, see C12_strict_tol_counterexample). -/
+theorem closeVal_refl (tol : Option Rat) (htol : ∀ t, tol = some t → 0 ≤ t) (v : Val) : closeVal tol v v = true := by
+  cases v with
+  | num q => simp only [closeVal, numView]; exact closeNum_refl tol htol q
+  | bool b => simp only [closeVal, numView]; exact closeNum_refl tol htol _
+  | str s => simp [closeVal, numView, pyEqNonNum]
+  | blank => simp [closeVal, numView, pyEqNonNum]
+  | err e => simp [closeVal, numView, pyEqNonNum]
+
+theorem closeEV_refl (tol : Option Rat) (htol : ∀ t, tol = some t → 0 ≤ t) (v : EngineInst.EV) :
+    closeEV tol v v = true := by
+  cases v with
+  | sc a => exact closeVal_refl tol htol a
+  | arr r => simp [closeEV]
+
+/-- the model follows the code: a logical is "close" to the number it equals, for every tolerance setting — the
+    alteration TRUE -> 1 is invisible (known finding logical.as-number). -/
+theorem closeVal_logical_number (tol : Option Rat) (htol : ∀ t, tol = some t → 0 ≤ t) :
+    closeVal tol (.bool true) (.num 1) = true ∧ closeVal tol (.num 0) (.bool false) = true := by
+  constructor
+  · simp only [closeVal, numView, if_true]; exact closeNum_refl tol htol 1
+  · simp only [closeVal, numView]; exact closeNum_refl tol htol 0
+
+/-- tolerance 0 means exact: equal numbers are close, different numbers are not -/
+theorem closeVal_tol_zero (a b : Rat) : closeVal (some 0) (.num a) (.num b) = decide (a = b) := by
+  simp only [closeVal, numView, closeNum, Rat.mul_zero]
+  by_cases h : a = b
+  · subst h; simp [Rat.sub_self, ratAbs]
+  · have hne : b - a ≠ 0 := fun e => h (by grind)
+    have : ¬ ratAbs (b - a) ≤ 0 := by
+      unfold ratAbs; split <;> grind
+    simp [h, this]
+
+/-- the pinned comparison `abs(a-b) < (1+rel)*tol`: not reflexive at tolerance 0, so the consistent one-cell
+    workbook was reported (what fix c457f68 repaired). -/
+def closeNumStrict (t : Rat) (a b : Rat) : Bool := decide (ratAbs (b - a) < (1 + rel) * t)
+
+theorem C12_strict_tol_counterexample : closeNumStrict 0 10 10 = false := by
+  unfold closeNumStrict; decide +kernel
+
+/-! ### the driver's instance: the theorems apply to the configuration the correspondence runs -/
+
+theorem uniqWb_wf {wb : Workbook} (h : WF wb) : WF (uniqWb wb) :=
+  ⟨fun i j hj => h.lt i j (List.mem_eraseDups.1 hj), fun i hi => by
+    show (wb.deps i).eraseDups = []
+    rw [h.input i hi]; simp⟩
+
+open EngineInst in
+theorem semTot_local (specs : List Spec) (raises : Nat → Option (Fail × Val)) :
+    Local (uniqWb (mkWb specs)) (semTot specs raises) := by
+  intro i e e' h
+  unfold semTot
+  cases raises i with
+  | some p => rfl
+  | none => exact sem_local specs i e e' (fun j hj => h j (List.mem_eraseDups.2 hj))
+
+open EngineInst in
+/-- C12_sound for the driver's configuration: a well-formed workbook in the correspondence language without raising
+    nodes, any tolerance setting `None`/`≥ 0`, any outputs, verify_tree on or off. -/
+theorem C12_sound_inst (specs : List Spec) (hwf : wfCheck specs = true) (stored : Nat → Option EV)
+    (tol : Option Rat) (htol : ∀ t, tol = some t → 0 ≤ t) (noData : Nat → EV → Bool) (tree : Bool)
+    (hc : Consistent (instCfg specs (fun _ => none) stored tol noData tree) (semTot specs (fun _ => none)))
+    (outs : List Nat) :
+    (validate (instCfg specs (fun _ => none) stored tol noData tree) outs).rep.isEmpty = true := by
+  have hl := semTot_local specs (fun _ => none)
+  have h := C12_sound (C := instCfg specs (fun _ => none) stored tol noData tree)
+    (f := semTot specs (fun _ => none)) (uniqWb_wf (wf_of_check specs hwf)) hl
+    (fun i e e' h => by
+      show semG specs (fun _ => none) i e = semG specs (fun _ => none) i e'
+      simp only [semG]
+      exact congrArg _ (sem_local specs i e e' (fun j hj => h j (List.mem_eraseDups.2 hj))))
+    (fun i e v hv => by
+      have : semG specs (fun _ => none) i e = .ok v := hv
+      simp only [semG] at this; cases this; rfl)
+    hc (fun i e => ⟨_, rfl⟩) (closeEV_refl tol htol) outs
+  simp [Report.isEmpty, h.1, h.2]
+
+/-! ### non-vacuity: a concrete workbook satisfying the hypotheses of C12_complete / C12_sound -/
+
+namespace Example
+open EngineInst
+
+/-- A1 = 5, B1 = A1+A1, C1 = B1+A1; stored B1 altered from 10 to 11 -/
+def specs : List Spec := [.inp (.num 5), .fml (.add 0 0), .fml (.add 1 0)]
+def storedOk : Nat → Option EV := fun j => if j = 1 then some (.sc (.num 10)) else if j = 2 then some (.sc (.num 15)) else none
+def storedBad : Nat → Option EV := fun j => if j = 1 then some (.sc (.num 11)) else storedOk j
+def cfg (st : Nat → Option EV) : Cfg EV := instCfg specs (fun _ => none) st none (fun _ _ => false) true
+
+-- the consistent file: empty report; the altered file: B1 named with (11, 10), and C1 (a dependant) as well
+example : (validate (cfg storedOk) [2]).rep.isEmpty = true := by decide +kernel
+example : (validate (cfg storedBad) [2]).rep.lookup 1 = some (.sc (.num 11), .sc (.num 10)) := by decide +kernel
+example : ((validate (cfg storedBad) [2]).rep.mismatch.map (·.1)) = [1, 2] := by decide +kernel
+example : wfCheck specs = true := by decide
+example : Walk (cfg storedBad) [] [2] 1 := .dep rfl (.out (List.mem_cons_self ..)) (by simp) (by decide)
+
+end Example
+
+end Pycel.Validate
